@@ -64,6 +64,7 @@ type BundleCfg struct {
 	NoExpandCollidingCyc  bool
 	NoKeywordPropsInFull  bool
 	NoCollisions          bool
+	NoCollisionsInFull    bool // full mode: colliding auxiliary definitions are renamed apart
 	NoKeepNames           bool
 	KeepNamesPlainOnly    bool // KeepNames only together with the plain name layer
 	NoOAIGenNamedAliases  bool // a root definition whose name contains "OAIGen" is never a bare alias of a remote definition
@@ -449,7 +450,7 @@ func GenFlattenCase(d *D, cfg BundleCfg) *FlattenCase {
 			}
 		}
 	}
-	if cfg.NoCollisions && len(g.refFree) > 0 {
+	if (cfg.NoCollisions || (cfg.NoCollisionsInFull && !g.opts.Minimal && !g.opts.Expand)) && len(g.refFree) > 0 {
 		// rename colliding auxiliary definitions apart
 		for i, a := range g.aux {
 			for j, n := range g.auxDefs[a] {
